@@ -233,6 +233,21 @@ func doParse(c wcase) Ev {
 			if err == nil {
 				item = Ev{"sats": le64(o.Satoshis), "ls": scriptInts(o.LockingScript)}
 			}
+		case "jsondoc-tx", "jsondoc-input", "jsondoc-utxo", "jsondoc-nodeutxo", "jsondoc-output":
+			// a JSON document given to a field-wise JSON decoder: only totality is judged (value or error)
+			switch c.api {
+			case "jsondoc-tx":
+				err = json.Unmarshal(c.in, &bt.Tx{})
+			case "jsondoc-input":
+				err = json.Unmarshal(c.in, &bt.Input{})
+			case "jsondoc-output":
+				err = json.Unmarshal(c.in, &bt.Output{})
+			case "jsondoc-utxo":
+				err = json.Unmarshal(c.in, &bt.UTXO{})
+			case "jsondoc-nodeutxo":
+				err = json.Unmarshal(c.in, (&bt.UTXO{}).NodeJSON())
+			}
+			used = int64(len(c.in))
 		case "json", "jsonnode", "jsonhex", "jsonnodehex":
 			// the JSON decoders delegate to hex decoding + the binary decoder
 			tx := &bt.Tx{}
@@ -685,6 +700,26 @@ func txwire(args []string) error {
 		// random bytes
 		for i := 0; i < *n; i++ {
 			parseAll("random", randBytes(rng, rng.Intn(80)), "bytes", "reader", "list", "input", "output")
+		}
+		// field-wise JSON documents whose hex fields have every interesting length (txid: 0, 31, 32, 33, 34, 64, 100
+		// bytes; odd-length and non-hex strings; scripts empty / long)
+		hexOf := func(l int) string { return hex.EncodeToString(randBytes(rng, l)) }
+		var ids []string
+		for _, l := range []int{0, 1, 31, 32, 33, 34, 64, 100, 1000} {
+			ids = append(ids, hexOf(l))
+		}
+		ids = append(ids, "0", hexOf(32)+"0", "zz", hexOf(16)+"g"+hexOf(16))
+		for _, id := range ids {
+			for _, sc := range []string{"", "51", hexOf(300), "5"} {
+				in := fmt.Sprintf(`{"unlockingScript":"%s","txid":"%s","vout":1,"sequence":4294967295}`, sc, id)
+				parseAll("jsondoc", []byte(in), "jsondoc-input")
+				parseAll("jsondoc", []byte(`{"version":1,"locktime":0,"inputs":[`+in+`],"outputs":[{"satoshis":1,"lockingScript":"`+sc+`"}]}`), "jsondoc-tx")
+				parseAll("jsondoc", []byte(fmt.Sprintf(`{"txid":"%s","vout":0,"lockingScript":"%s","satoshis":5}`, id, sc)), "jsondoc-utxo")
+				parseAll("jsondoc", []byte(fmt.Sprintf(`{"txid":"%s","vout":0,"scriptPubKey":"%s","amount":0.5}`, id, sc)), "jsondoc-nodeutxo")
+			}
+		}
+		for _, doc := range []string{`{}`, `[]`, `null`, `{"satoshis":-1}`, `{"satoshis":1,"lockingScript":null}`, `{"inputs":null,"outputs":null}`, `{"inputs":[null]}`, `{"outputs":[null]}`} {
+			parseAll("jsondoc", []byte(doc), "jsondoc-tx", "jsondoc-input", "jsondoc-output", "jsondoc-utxo", "jsondoc-nodeutxo")
 		}
 		// corpus
 		corpus := loadCorpus(*repo)
